@@ -53,7 +53,7 @@ T13_CLIENT_FLIGHT = {
            ("trailing", {"op": "trail_msg", "data": "00"})],
     "ccs": [OK, ("drop", {"op": "drop_msg"}), ("bad", {"op": "raw_replace", "data": "02"}), ("two", {"op": "raw_replace", "data": "0101"})],
     "fin": [OK,
-            ("flip", {"op": "byte_set", "pos": 10, "value": 0}),
+            ("flip", {"op": "byte_xor", "pos": 10, "mask": 255}),
             ("short", {"op": "trunc_msg", "at": 31}),
             ("long", {"op": "trail_msg", "data": "00"}),
             ("empty", {"op": "trunc_msg", "at": 0})],
@@ -115,7 +115,7 @@ T13_SERVER_FLIGHT = {
            ("sig-empty", S(F(["signature"], "empty"))),
            ("trunc", {"op": "trunc_msg", "at": 2})],
     "fin": [OK,
-            ("flip", {"op": "byte_set", "pos": 10, "value": 0}),
+            ("flip", {"op": "byte_xor", "pos": 10, "mask": 255}),
             ("short", {"op": "trunc_msg", "at": 31}),
             ("long", {"op": "trail_msg", "data": "00"})],
 }
@@ -205,7 +205,7 @@ T12_SERVER_FLIGHT = {
     "ccs": [OK, ("drop", {"op": "drop_msg"}), ("bad", {"op": "raw_replace", "data": "02"}), ("two", {"op": "raw_replace", "data": "0101"}),
             ("empty", {"op": "raw_replace", "data": ""})],
     "fin": [OK,
-            ("flip", {"op": "byte_set", "pos": 10, "value": 0}),
+            ("flip", {"op": "byte_xor", "pos": 10, "mask": 255}),
             ("short", {"op": "trunc_msg", "at": 11}),
             ("long", {"op": "trail_msg", "data": "00"})],
 }
@@ -246,7 +246,7 @@ T12_CLIENT_FLIGHT = {
     "ccs": [OK, ("drop", {"op": "drop_msg"}), ("bad", {"op": "raw_replace", "data": "02"}), ("two", {"op": "raw_replace", "data": "0101"}),
             ("empty", {"op": "raw_replace", "data": ""})],
     "fin": [OK,
-            ("flip", {"op": "byte_set", "pos": 10, "value": 0}),
+            ("flip", {"op": "byte_xor", "pos": 10, "mask": 255}),
             ("short", {"op": "trunc_msg", "at": 11}),
             ("long", {"op": "trail_msg", "data": "00"})],
 }
@@ -537,3 +537,202 @@ def flight_agree(mo, impl):
     if parts[0] == "blocked":
         return impl[:2] == ("other", "stall")
     return False
+
+
+# ---------------------------------------------------------------------------------------------
+# HelloRetryRequest: first ClientHello, the server's decision, the second ClientHello
+HRR_ACCEPTABLE = [23, 29, 23, 29, 24, 256, 257, 258, 259, 260]     # keyShares + eccCurves + dhGroups of the server below
+HRR_MESSAGES = ["Missing supported groups extension", "No acceptable group advertised by client", "Key share missing in Client Hello",
+                "Empty key share extension in second Client Hello", "Multiple key shares in second Client Hello",
+                "Client key share does not match Hello Retry Request", "Malformed cookie extension",
+                "Second client hello does not contain cookie extension", "PSK extension not last in client hello",
+                "Old Client Hello does not match the updated Client Hello"]
+
+
+def hrr_case(rng):
+    P = lambda v: ("P", v)
+    psk_ke = rng.random() < 0.35
+    ks1 = rng.choice([[30], [30], [30, 25], [], [25], [29], None if psk_ke else [30]])
+    if psk_ke:
+        sg1 = rng.choice([None, [30, 25, 29, 23], [30, 25, 24], [30, 25], [29, 30, 25]])
+    else:
+        sg1 = rng.choice([[30, 25, 29, 23], [30, 25, 24], [30, 25], [30, 25, 260], [29, 30, 25]])
+    if ks1 and sg1 is not None:
+        ks1 = [g for g in sg1 if g in ks1]          # the order of the advertised groups
+        if not ks1:
+            ks1 = [sg1[0]] if sg1[0] in (30, 25, 29) else []
+    f1 = {"pe": 0, "cv": 0x0303, "se": 0, "ce": 0, "nc": 1, "sv": P([0x0304]), "sa": P(4), "alpn": "-", "sni": P([(0, "o")]),
+          "ems": "-", "ecpf": "-", "pha": "-", "pm": P([0] if psk_ke else [1]), "psk": P(([4], [32], True)) if psk_ke else "-",
+          "sg": "-" if sg1 is None else P(sg1), "ks": "-" if ks1 is None else P(ks1), "ed": "-", "hb": "-", "rsl": "-", "ct": "-",
+          "_min": 0x0301, "_vers": [0x0304, 0x0303, 0x0302, 0x0301], "_dupval": {}, "_sid": b"\x07" * 32}
+    second = {"ks2": rng.choice(["sel", "sel", "sel", "sel", "absent", "none", "empty", "sel+other", "other", "dup"]),
+              "cookie": rng.choice([0, 0, 0, 0, 1, 2]),
+              "psklast": True if not psk_ke else rng.random() < 0.8,
+              "change": rng.choice(["none", "none", "none", "random", "suites", "added-ext", "sni", "padding-added", "early-data-removed"]),
+              "parse": rng.choice([0, 0, 0, 0, 0, 50])}
+    return f1, ks1, sg1, psk_ke, second
+
+
+def run_hrr_case(f1, second):
+    """server alone: first hello, read the HelloRetryRequest, answer with the second hello built from the features"""
+    from harness import lab
+    from . import c08
+    L = lab.Lab()
+    L.max_steps = 5000
+    chain, key = lab.creds("rsa")
+    ss = lab.settings(minv=(3, 1), maxv=(3, 4), eccCurves=["secp256r1", "x25519", "secp384r1"], pskConfigs=[(b"iiii", b"\x01" * 32)])
+    L.start_server(lambda c: c.handshakeServerAsync(certChain=chain, privateKey=key, settings=ss))
+    L.client.state = "idle"
+    if second.get("change") == "early-data-removed":
+        f1 = dict(f1, ed=("P", False)) if f1["psk"] != "-" else f1
+    L.link.inject("c2s", c08.rec(22, c08.ch_feature_bytes(f1), ver=(3, 1)))
+    with c08.Watchdog():
+        L.run(only=("server",))
+    hrr = None
+    for t, v, body in L.link.records("s2c"):
+        if t == 22 and body[:1] == b"\x02" and bytes(body[6:38]) == bytes.fromhex(
+                "cf21ad74e59a6111be1d8c021e65b891c2a211167abb8c5e079e09e2c8a8339c"):
+            hrr = bytes(body)
+    if hrr is None or L.server.state != "stall":
+        return L, None
+    # the extensions of the HelloRetryRequest: selected group and cookie
+    root = M.parse_handshake(hrr, {"version": (3, 4), "hrr": True})
+    sel, cookie = None, None
+    for p, n in root.walk():
+        if n.name == "ext:key_share":
+            sel = int.from_bytes(n.children[1].content(), "big")
+        if n.name == "ext:cookie":
+            cookie = n.children[1].content()
+    f2 = dict(f1)
+    f2["ed"] = "-"
+    other = 24 if sel != 24 else 23
+    ks2 = {"sel": ("P", [sel]), "absent": "-", "none": ("P", None), "empty": ("P", []), "sel+other": ("P", [sel, other]),
+           "other": ("P", [other]), "dup": "D"}[second["ks2"]]
+    f2["ks"] = ks2
+    f2["_dupval"] = {"ks": [sel]}
+    extra = []
+    if second["cookie"] == 0:
+        extra.append((44, cookie, 3))
+    elif second["cookie"] == 2:
+        extra.append((44, cookie[:-1] + bytes([cookie[-1] ^ 1]), 3))
+    ch = second["change"]
+    if ch == "random":
+        f2["_random"] = 0x5b
+    elif ch == "suites":
+        f2["se"] = 0
+        f2["_suites_alt"] = True
+    elif ch == "added-ext":
+        extra.append((0xfafa, b"\x00", 0))
+    elif ch == "sni":
+        f2["sni"] = ("P", [(0, "o"), ])
+        f2["sni"] = "-"
+    elif ch == "padding-added":
+        extra.append((21, b"\x00" * 7, -1))      # after the cookie (the code re-inserts cookie, then padding, by index)
+    f2["_extra_exts"] = extra
+    if f2["psk"] != "-" and not second["psklast"]:
+        ids, bs, _ = f2["psk"][1]
+        f2["psk"] = ("P", (ids, bs, False))
+    msg = c08.ch_feature_bytes(f2)
+    if second["parse"] == 50:
+        msg = msg[:1] + (len(msg) - 5).to_bytes(3, "big") + msg[4:-1]
+    L.server.state = "running"
+    L.link.inject("c2s", c08.rec(20, b"\x01") + c08.rec(22, msg, ver=(3, 3)))
+    with c08.Watchdog():
+        L.run(only=("server",))
+    return L, (sel, f2)
+
+
+def hrr_stream(ctx, J, n):
+    from . import c08
+    lc = ctx.lean()
+    rng = ctx.rng
+    msgs = [c08.norm_msg(m) for m in HRR_MESSAGES]
+    for _ in range(n):
+        if ctx.out_of_time(0.65):
+            return
+        f1, ks1, sg1, psk_ke, second = hrr_case(rng)
+        L, info = run_hrr_case(f1, second)
+        impl = observe(L, "server")
+        ol = lambda v: "N" if v is None else "L" + ",".join(map(str, v))
+        sel = info[0] if info else 0
+        other = 24 if sel != 24 else 23
+        ks2 = {"sel": "L%d" % sel, "absent": "-", "none": "N", "empty": "L", "sel+other": "L%d,%d" % (sel, other), "other": "L%d" % other,
+               "dup": "D"}[second["ks2"]]
+        same = second["change"] in ("none", "padding-added", "early-data-removed")
+        p2 = second["parse"] if second["parse"] else (47 if second["ks2"] == "dup" else 0)
+        line = "hrr ks1=%s sg1=%s acc=%s p2=%d ks2=%s cookie=%d pskboth=%d psklast=%d same=%d" % (
+            ol(ks1), ol(sg1), ",".join(map(str, HRR_ACCEPTABLE)), p2, ks2, second["cookie"], 1 if psk_ke else 0,
+            1 if second["psklast"] else 0, 1 if same else 0)
+        replay = {"stage": "hrr", "f1": f1, "second": second, "msg": "client_hello", "cls": "hrr-" + second["ks2"], "scn": "hrr",
+                  "line": line}
+        c08.judge(J, L, "server", "HelloRetryRequest flow", replay)
+        ctx.case(key=("hrr", line, second["change"]), nontrivial=True,
+                 sample={"hrr": line, "impl": list(impl)} if ctx.evaluations % 157 == 0 else None)
+        ctx.count("hrr:" + ("retry" if info else "no-retry"))
+        if lc is None:
+            continue
+        mo = lc.ask(line)
+        ctx.compared()
+        parts = mo.split(":", 2)
+        if parts[0] == "alert":
+            m = c08.norm_msg(parts[2])
+            ok = impl[0] == "alert" and impl[1] == int(parts[1]) and (m == "parse" or impl[2].startswith(m))
+        elif parts[0] == "pass":
+            ok = impl[0] != "escape" and not (impl[0] == "alert" and any(impl[2].startswith(x) for x in msgs))
+        else:
+            ok = False
+        if not ok:
+            ctx.disagree("hrr-flow", {"line": line, "change": second["change"]}, mo, impl)
+
+
+# ---------------------------------------------------------------------------------------------
+# resumption: the consistency checks between the cached session and the new ClientHello
+RESUME_BASE = dict(req=1, found=1, co=1, srp=1, sni=1, etm=1, emsold=1, emsnew=1, reneg=0, alpnw=0, alpnc=1, hb=0)
+RESUME_VARIANTS = {
+    "cipher-not-offered": (F(["cipher_suites"], "set_bytes", data="00ff"), {"co": 0}),
+    "sni-differs": (F(["ext:server_name", "host_name"], "set_bytes", data=b"example.org".hex()), {"sni": 0}),
+    "ems-dropped": (F(["extensions"], "del_named", name="ext:extended_master_secret"), {"emsnew": 0}),
+    "renegotiation-info-non-empty": (ins_ext(65281, "01aa", where=0), {"reneg": 1}),
+    "other-session-id": (F(["session_id"], "set_bytes", data="ab" * 32), {"found": 0}),
+    "no-session-id": (F(["session_id"], "empty"), {"req": 0}),
+}
+
+
+def resume_stream(ctx, J, bases):
+    from . import c08
+    import itertools
+    lc = ctx.lean()
+    base = bases.get("tls12-resume-sni")
+    if base is None or not base.ok:
+        ctx.count("flight-skipped:tls12-resume-sni")
+        return
+    names = sorted(RESUME_VARIANTS)
+    combos = [()] + [(n,) for n in names] + list(itertools.combinations(names, 2))
+    for combo in combos:
+        steps = [RESUME_VARIANTS[n][0] for n in combo]
+        f = dict(RESUME_BASE)
+        for n in combo:
+            f.update(RESUME_VARIANTS[n][1])
+        d = dict(S(*steps), pver=[3, 3], label="client_hello", cls="resume-" + "+".join(combo))
+        L, applied, peak = c08.run_handshake_case(base.scn, "client", 0, d, base.ctxm)
+        if L is None or applied.get("inapplicable"):
+            ctx.count("flight-inapplicable:resume")
+            continue
+        impl = observe(L, "server")
+        line = "resume " + " ".join("%s=%s" % kv for kv in f.items())
+        replay = {"stage": "handshake", "scn": base.scn.name, "side": "client", "target": 0, "msg": "client_hello", "desc": d,
+                  "cls": d["cls"], "ctxm": base.ctxm}
+        c08.judge(J, L, "server", "resumption " + "+".join(combo), replay)
+        ctx.case(key=("resume", combo), nontrivial=True, sample=None)
+        ctx.count("flight:resume")
+        if lc is None:
+            continue
+        mo = lc.ask(line)
+        ctx.compared()
+        if mo == "pass":
+            # a full handshake follows (or the resumed one goes on): not one of the message-less alerts of this block
+            ok = impl[0] != "escape" and not (impl[0] == "alert" and impl[2] == "")
+        else:
+            ok = flight_agree(mo, impl)
+        if not ok:
+            ctx.disagree("resume-checks", {"combo": list(combo), "line": line}, mo, impl)
